@@ -6,18 +6,17 @@
 cd "$(dirname "$0")/.." || exit 2
 if [ -n "$(git -C /repo status --porcelain)" ]; then echo "/repo is dirty"; exit 2; fi
 SEEDS=${@:-$(ls seeded)}
-declare -A BY=( [C01-1]="C03 C01" [C01-2]="C03" [C06-1]="C06" )
+declare -A BY=( [C01-1]="C03 C01" [C01-2]="C03" [C03-2]="C03 C09" )
 rc=0
 for s in $SEEDS; do
   prop=${s%%-*}
   checks=${BY[$s]:-$prop}
-  git -C /repo apply seeded/$s/patch.diff || { echo "$s: patch does not apply"; rc=1; continue; }
   res=""
   for c in $checks; do
-    out=$(bin/check $c quick 2>&1)
+    # /repo is dirty only while the harness is being built (bin/seed_run.sh)
+    out=$(bin/seed_run.sh seeded/$s/patch.diff $c quick 2>&1)
     if echo "$out" | grep -q "^VIOLATION property=$c "; then res="$res $c:DETECTED"; else res="$res $c:MISSED"; rc=1; fi
   done
-  git -C /repo checkout -- .
   echo "$s ->$res"
 done
 # remove replay files produced by the seeded runs (the committed ones are restored)
